@@ -31,6 +31,27 @@ func registerMoreExternals() {
 
 func init() {
 	extraRegs = append(extraRegs, func() {
+		// storagesc.emitUpdateBlobberReadStatEvent converts the marker's read size through
+		// math/big.Float (bit-level float manipulation) only to fill a statistics event: with a
+		// symbolic read size the event is cut (not emitted); with a concrete one the body runs.
+		externals["0chain.net/smartcontract/storagesc.emitUpdateBlobberReadStatEvent"] = func(fr *frame, args []value) value {
+			if rm, ok := args[0].(*value); ok && rm != nil {
+				if st, ok := (*rm).(structure); ok {
+					for _, f := range st {
+						if _, isF := f.(sv); isF {
+							fr.i.p.notes = append(fr.i.p.notes, "cut: TagUpdateBlobberStat event of a symbolic read size not emitted")
+							return nil
+						}
+					}
+				}
+			}
+			return callBody(fr, args)
+		}
+	})
+}
+
+func init() {
+	extraRegs = append(extraRegs, func() {
 		rawHash := func(fr *frame, args []value) []byte {
 			it := args[0].(iface)
 			var data []byte
